@@ -186,12 +186,28 @@ def rule_returns_all(ctx: Ctx) -> None:
         for f in P.functions_in(mn):
             req = [p_.arg for p_ in f.params if p_.annotation is not None and re.search(r"(set|list|Iterable)\[OUTPUT_TYPE\]", norm(p_.annotation))]
             single = [p_.arg for p_ in f.params if p_.annotation is not None and re.match(r"(OrderedDict|dict|Dict|Mapping)\[str,", norm(p_.annotation))]
+            # annotated locals count too (`outputs: OrderedDict[str, Result] = OrderedDict()`)
+            single += [a_.target.id for a_ in ast.walk(f.node) if isinstance(a_, ast.AnnAssign) and isinstance(a_.target, ast.Name) and re.match(r"(OrderedDict|dict|Dict|Mapping)\[str,", norm(a_.annotation))]
             if not req:
                 continue
             for c in [c for c in ast.walk(f.node) if isinstance(c, ast.Compare) and len(c.ops) == 1 and isinstance(c.ops[0], (ast.In, ast.NotIn)) and isinstance(c.comparators[0], ast.Name) and c.comparators[0].id in req]:
                 n += 1
                 left = c.left
-                from_single = isinstance(left, ast.Name) and any(any(isinstance(t, ast.Name) and t.id == left.id for t in ast.walk(it["target"])) and any(isinstance(x, ast.Name) and x.id in single for x in ast.walk(it["iter"])) for it in iterations(f.node))
+                def str_keyed(e: ast.AST) -> bool:
+                    """`e` mentions a mapping whose keys are plain `str` (by annotation, or by the type the annotation typer infers)."""
+                    for x in ast.walk(e):
+                        if isinstance(x, ast.Name) and x.id in single:
+                            return True
+                        if isinstance(x, ast.Name):
+                            try:
+                                ty = ctx.typer.expr(f, x)
+                            except Exception:  # noqa: BLE001
+                                continue
+                            if getattr(ty, "kind", None) == "map" and ty.args and getattr(ty.args[0], "name", None) == "str":
+                                return True
+                    return False
+
+                from_single = isinstance(left, ast.Name) and any(any(isinstance(t, ast.Name) and t.id == left.id for t in ast.walk(it["target"])) and str_keyed(it["iter"]) for it in iterations(f.node))
                 ctx.tri("4-forward", f, c, False, from_single, "", f"`{norm(c)}` compares a single result name (a key of `{single[0] if single else '?'}`) with the requested OUTPUT_TYPEs: a requested tuple output never matches, so its results are dropped",
                         f"`{norm(c)}`: kind of the left operand not traced", key=f"name-kinds {f.name}")
     ctx.add("4-forward", "pipefunc.map", "", True, f"{n} membership test(s) against a request of OUTPUT_TYPEs examined", key="name-kinds-scan")
